@@ -82,6 +82,31 @@ def r14_1(ctx, g):
     rng = [l for l in pe.node.body if isinstance(l, ast.For) and isinstance(l.iter, ast.Call) and norm(l.iter.func) == "range"]
     ok_rng = bool(rng) and [norm(a) for a in rng[0].iter.args] == ["1", "len(ordered_path)".replace("ordered_path", pe.params[1])]
     ctx.check(ok_rng, "R14.1", pe.where(), "every consecutive pair of steps is checked (range(1, len(path)))", key_of(pe, "pair-range"))
+    # per pair: the pair is rejected unless a matching link is found *for this pair*
+    if rng:
+        pl = rng[0]
+        pp = enum_paths(pl.body, expand_loop=lambda n: True, rule="R14.1", where=pe.where(pl))
+        badp = None
+        for p in pp:
+            # the decision variable: tested right before a `return False` on some path
+            tests = [(e.node, e.pol) for e in p.events if e.kind == "test"]
+            if p.term == "return" and const_value(p.term_node.value, "?") is False:
+                continue
+            if p.term in ("fall", "continue"):
+                # accepted pair: the flag that lets it pass must have been (re)set to False and then to True in this iteration,
+                # or the acceptance must come from the comparison itself
+                flags_true = [e for e in p.events if e.kind == "stmt" and isinstance(e.node, ast.Assign) and const_value(e.node.value, 0) is True]
+                flags_false = [e for e in p.events if e.kind == "stmt" and isinstance(e.node, ast.Assign) and const_value(e.node.value, 1) is False]
+                matched = any(e.kind == "test" and e.pol and "edge[0]" in norm(e.node) for e in p.events)
+                if not matched:
+                    badp = (p, "a pair of steps is accepted on a path on which no link of this pair matched")
+                    break
+                for ft in flags_true:
+                    nm = norm(ft.node.targets[0])
+                    if not any(norm(ff.node.targets[0]) == nm and p.events.index(ff) < p.events.index(ft) for ff in flags_false):
+                        badp = (p, f"the flag `{nm}` that accepts a pair is not reset for each pair: once one pair matched, every later pair is accepted")
+                        break
+        ctx.check(badp is None, "R14.1", pe.where(pl), "each consecutive pair is accepted only if a link matching *that* pair was found (the per-pair flag is reset for every pair)", key_of(pe, f"per-pair:{badp[1] if badp else ''}"), paths=len(pp), **({"path": badp[0].show(), "why": badp[1]} if badp else {}))
     # result: False as soon as one pair has no link, True otherwise
     rets = [r for r in walk_own(pe.node) if isinstance(r, ast.Return)]
     vals = [const_value(r.value, "?") for r in rets]
